@@ -800,6 +800,10 @@ static void SwitchTo_ST6(void* pUser) {
     SetIntConstMode(eIntConstModeIntel);
     SetIsOccupiedFnc = TrueFnc;
 
+    /* WORD is the shared ADR handler: LSB first here, whatever byte order the target
+       selected before this one used */
+    SetMotoADRTurn(False);
+
     PCSymbol    = "PC";
     HeaderID    = 0x78;
     NOPCode     = 0x04;
